@@ -523,9 +523,31 @@ def _outside_preconditions(rng):
 
 
 # ------------------------------------------------------------------------------------------------ the check
-def run(tier, seed):
+_EXPECTED_PATHS = {
+    "Adder": ["_adder_decomposition", "_adder_arithmetic_decomposition"], "PhaseAdder": ["_phase_adder_decomposition"],
+    "SemiAdder": ["_semi_adder"], "C(SemiAdder)": ["_controlled_semi_adder"], "OutAdder": ["_out_adder_decomposition"],
+    "Multiplier": ["_multiplier_decomposition"], "ModExp": ["_mod_exp_decomposition"], "OutPoly": ["_out_poly_decomposition"],
+    "OutMultiplier": ["_out_multiplier_with_qft", "_out_multiplier_with_adder", "_out_multiplier_with_caddsub", "_out_multiplier_with_cache"],
+    "SignedOutMultiplier": ["_decomposition_not_zeroed", "_decomposition_zeroed"],
+    "OutSquare": ["_out_square_with_adder", "_out_square_with_caddsub"], "SignedOutSquare": ["signed_square_from_unsigned_square"],
+    "IntegerComparator": ["_lt_decomposition", "_ge_decomposition", "_flip_geq", "matrix"],
+    "Incrementer": ["_incrementer_decomposition", "_incrementer_fallback_decomposition"],
+    "C(Incrementer)": ["_controlled_incrementer_decomposition"],
+    "TemporaryAND": ["_temporary_and", "_temporary_and_to_toffoli", "matrix"], "AdjTemporaryAND": ["matrix", "device"],
+    "QubitSum": ["_qubitsum_to_cnots", "matrix"], "QubitCarry": ["_qubitcarry_to_cnot_toffolis", "matrix"]}
+
+
+def replay(path, tier="quick", seed=0):
+    """./check C56 --replay replays/C56/<file>.json : re-run only the configurations of a recorded violation"""
+    rec = json.loads(open(path).read())
+    return run(tier, seed, cfgs=rec["replay"]["configs"])
+
+
+def run(tier, seed, cfgs=None):
     rng = random.Random(seed)
-    cfgs = make_configs(tier, seed)
+    replaying = cfgs is not None
+    if cfgs is None:
+        cfgs = make_configs(tier, seed)
     only = os.environ.get("VERIF_C56_ONLY")          # development aid: restrict to some templates
     if only:
         cfgs = [c for c in cfgs if c["t"] in only.split(",")]
@@ -541,7 +563,7 @@ def run(tier, seed):
     lib.require_ok(g, "ArithGen")
     tabs = {j["cid"] - 1: j for j in g.json_lines}
     sweep = next((t[1] for t in g.tuples if t[0] == "SWEEP"), 0)
-    if sweep < 100 or g.distinct < 2 * (len(cfgs) + sweep):
+    if sweep < 100 or g.distinct < 2 * (len(cfgs) + sweep):           # two states per configuration / parameter choice
         raise lib.MachineryError(f"model sweep incomplete: {sweep} parameter choices, {g.distinct} states")
     if len(tabs) != len(cfgs) or not all(j["pre"] and j["n"] >= 1 for j in tabs.values()):
         raise lib.MachineryError(f"generator tables not total: {len(tabs)} of {len(cfgs)}")
@@ -611,7 +633,7 @@ def run(tier, seed):
         if verd[i] == "ok":
             raise lib.MachineryError(f"negative control accepted ({want}) for trace {i}")
         nneg += want in verd[i].split("+")
-    if len(negs) < 4 or nneg < len(negs) - 2:
+    if (len(negs) < 4 and not replaying) or nneg < len(negs) - 2:
         raise lib.MachineryError(f"negative controls: {nneg}/{len(negs)} rejected with the intended clause")
     # ---- verdicts -> violations (one per stable key)
     by_key, n_eval, per_t, nontriv, samples, paths_seen = {}, 0, {}, set(), [], {}
@@ -645,12 +667,19 @@ def run(tier, seed):
                        observed_registers=_decode(c, bad["o"]), state=bad["st"])
         ent = by_key.setdefault(key, {"n": 0, "first": det, "cfgs": []})
         ent["n"] += 1
-        if len(ent["cfgs"]) < 4:
-            ent["cfgs"].append(_describe(c))
+        if len(ent["cfgs"]) < 4 and c not in ent["cfgs"]:
+            ent["cfgs"].append(c)
     viol = []
     for key, ent in sorted(by_key.items()):
         viol.append(Violation(key=key, detail=f"{ent['n']} (configuration, path) trace(s); first: {json.dumps(ent['first'])}",
-                              replay={"first": ent["first"], "more_configs": ent["cfgs"], "registers": "values per register of `lay`"}))
+                              replay={"first": ent["first"], "configs": ent["cfgs"], "registers": "values per register of `lay`"}))
+    # ---- vacuity: every template and every registered rule of interest must have been exercised
+    if not replaying and not only:
+        for tname, needles in _EXPECTED_PATHS.items():
+            have = paths_seen.get(tname, set())
+            missing = [n for n in needles if not any(n in p for p in have)]
+            if not have or missing:
+                raise lib.MachineryError(f"vacuity: {tname} paths {sorted(have)} lack {missing}")
     raised, silent = _outside_preconditions(rng)
     cov = {"states": g.distinct + r.distinct, "transitions": g.generated + r.generated,
            "traces_validated_against_impl": n_real, "evaluations": n_eval, "distinct_nontrivial": len(nontriv),
